@@ -11,6 +11,10 @@ namespace vx {
 
 typedef std::map<size_t, double> Forced;
 
+// "squeezed" default streams (dx --squeeze lo,hi): every unforced deviate is mapped into [lo,hi] - an alphabet of default
+// environment answers under which loops that a fair stream leaves after a few turns keep turning (0,1 = identity, bit-exact)
+static double SQ_LO = 0.0, SQ_HI = 1.0;
+
 // counter-based hash: fair in every dimension, a pure function of (phase, position)
 static inline double stream_value(uint64_t phase, uint64_t i)
 {
@@ -20,6 +24,7 @@ static inline double stream_value(uint64_t phase, uint64_t i)
   z ^= z >> 31;
   return ((double)(z >> 11) + 0.5) / 9007199254740992.0;
 }
+static inline double squeezed_value(uint64_t phase, uint64_t i) { return SQ_LO + (SQ_HI - SQ_LO) * stream_value(phase, i); }
 
 static inline double clamp01(double v)
 {
@@ -31,13 +36,14 @@ static inline double clamp01(double v)
 struct Source {
   const Forced * forced = nullptr;
   uint64_t phase = 1;
+  bool squeeze = true; // (initialisation streams are never squeezed)
   double at(size_t pos) const
   {
     if (forced) {
       auto it = forced->find(pos);
       if (it != forced->end()) return clamp01(it->second);
     }
-    return stream_value(phase, pos);
+    return squeeze ? squeezed_value(phase, pos) : stream_value(phase, pos);
   }
 };
 
